@@ -304,7 +304,7 @@ def run(ck: Check) -> None:
         elif kind == "file-not-envelope":
             fb = gen.oracle_bytes({"signed": payload})
         elif kind == "relaid":
-            fb = jsontext.rand_text(_random.Random(gi), env0).encode("utf-8", "surrogatepass")
+            fb = jsontext.rand_text(_random.Random(gi), env0, float_variants=False).encode("utf-8", "surrogatepass")
         ep = ENTRY_POINTS[gi % 3]
         gjobs.append((kind, ep, fb, fpr, canned, env0, sk))
         def tok(v):
